@@ -152,7 +152,9 @@ def step (st : St) (toks : List String) : St × String :=
   | ["pd.snap"] => (st, snapStr false st.pd ++ "\t*")
   | ["pd.restart"] =>
     -- cmd/nokv/pd.go: load the persisted regions and re-upsert them in id order
-    ({ st with pd := restart st.pdc st.pd }, "ok\t*")
+    -- reply = catalog after the restart; spec = catalog before it ("reloads identically")
+    let pd' := restart st.pdc st.pd
+    ({ st with pd := pd' }, snapStr false pd' ++ "\t" ++ snapStr false st.pd)
   -- ---------------- C25
   | ["cmd.validate", a, b, v, c, rv, rc, reqs] =>
     match parseMeta? s!"1:{a}:{b}:{v}:{c}", (splitList reqs ";").mapM parseReq? with
@@ -214,7 +216,7 @@ def step (st : St) (toks : List String) : St × String :=
       ({ st with cat := r.1 }, okStr r.2 ++ "\t*")
     | _, _ => (st, "bad-op")
   | ["cat.snap"] => (st, snapStr true st.cat ++ "\t*")
-  | ["cat.reopen"] => (st, "ok\t*")
+  | ["cat.reopen"] => (st, snapStr true st.cat ++ "\t" ++ snapStr true st.cat)
   | ["cat.probe", k] =>
     match bytesOf? k with
     | some k =>
